@@ -37,6 +37,9 @@ func (self ValueAnyObject) Display() (string, *VmInterrupt) {
 
 func (self ValueAnyObject) IsEqual(other Value) (bool, *VmInterrupt) {
 	otherObj := other.(ValueAnyObject)
+	if len(self.FieldsInternal) != len(otherObj.FieldsInternal) {
+		return false, nil // the loop below only shows self ⊆ other
+	}
 
 	for key, value := range self.FieldsInternal {
 		otherValue, found := otherObj.FieldsInternal[key]
